@@ -344,6 +344,16 @@ func cmdCheck() int {
 		repByFn["lemma:"+l.Name] = rep
 		obls = append(obls, vc.obls...)
 	}
+	// a clause may carry other properties than its function (props_of)
+	{
+		var f []*Obligation
+		for _, o := range obls {
+			if len(o.Props) == 0 || hasProp(o.Props, prop) {
+				f = append(f, o)
+			}
+		}
+		obls = f
+	}
 	if *flagOnly != "" {
 		var f []*Obligation
 		for _, o := range obls {
